@@ -298,6 +298,100 @@ def claim2_twin(kind_i: int, cur: int, first: int, k1: int, k2: int) -> bool:
 '''
 
 
+RECLAIM = r'''
+install()
+
+# release paths of the second actor (runner r2): claim, ..., release to an available status, claim again
+_ix = STATUSES.index
+PATHS = [["pending", "running", "retry", "pending"],
+         ["pending", "rerouted", "pending"],
+         ["pending", "running", "killed", "rerouted", "pending"]]
+
+def _seq_gen(orch, iid, reqs, outs):
+    for (new, rid) in reqs:
+        try:
+            yield from orch._atomic_status_transition__gen(iid, S[new], rid)
+            outs.append("ok")
+        except InvocationStatusTransitionError:
+            outs.append("no")
+        except InvocationStatusOwnershipError:
+            outs.append("no")
+
+def _merges(a, b):
+    if not a or not b:
+        yield list(a) + list(b); return
+    for rest in _merges(a[1:], b):
+        yield [a[0]] + rest
+    for rest in _merges(a, b[1:]):
+        yield [b[0]] + rest
+
+def reclaim(kind, path, na, ra, first, slices):
+    """actor A: one request (na by ra); actor B (r2): claims, releases through PATHS[path], claims again.
+    Linearisable: outcomes and final record equal those of SOME merge of the two request sequences run serially on the spec."""
+    global LAST_DETAIL
+    app, iid = fresh(kind)
+    orch = app.orchestrator
+    rec0 = orch.get_invocation_status_record(iid)
+    seq_a = [(na, RID[ra])]
+    seq_b = [(_ix(x), "r2") for x in PATHS[path]]
+    outs_a, outs_b = [], []
+    actors = [coop.Actor("A", _seq_gen(orch, iid, seq_a, outs_a)), coop.Actor("B", _seq_gen(orch, iid, seq_b, outs_b))]
+    res = coop.run_schedule(actors, first, slices)
+    rec = orch.get_invocation_status_record(iid)
+    coop.close_all_connections()
+    got = (outs_a, outs_b, rec.status.value, rec.runner_id)
+    errs = [repr(x.error) for x in actors if x.error is not None]
+    why = None
+    if res["deadlock"] or errs:
+        why = "C02:reclaim:deadlock-or-error"
+    else:
+        ok = False
+        for order in _merges([("A", r) for r in seq_a], [("B", r) for r in seq_b]):
+            st, ow = rec0.status.value, rec0.runner_id
+            oa, ob = [], []
+            for who, (new, rid) in order:
+                r = spec_step(st, ow, STATUSES[new], rid)
+                (oa if who == "A" else ob).append("ok" if r[0] == "ok" else "no")
+                if r[0] == "ok":
+                    st, ow = r[1], r[2]
+            if (oa, ob, st, ow) == got:
+                ok = True; break
+        if not ok:
+            why = "C02:reclaim:not-linearisable:claim-release-claim"
+    LAST_DETAIL = {"kind": kind, "path": PATHS[path], "A": (STATUSES[na], RID[ra]), "got": got, "errors": errs, "schedule": res["schedule"], "why": why}
+    return why is None
+'''
+
+RECLAIMF = r'''
+def reclaim___KIND_____PATH__(na: int, ra: int, first: int, k1: int, k2: int) -> bool:
+    """
+    pre: NALO <= na <= NAHI and 0 <= ra <= 1 and 0 <= first <= 1 and 0 <= k1 <= RKMAX and 0 <= k2 <= RKMAX
+    post: _
+    """
+    na = pick(na, NALO, NAHI); ra = pick(ra, 0, 1)
+    with NoTracing():
+        return reclaim(["mem", "sqlite"][__KIND__], __PATH__, na, ra, first, [k1, k2])
+'''
+
+RECLAIM_CANARY = r'''
+# canary: the lock-table entry dropped at the end of every transition (a "leak fix") must be refuted
+_orig_gen = mo.MemOrchestrator._atomic_status_transition__gen
+def _popping(self, invocation_id, status, runner_id=None):
+    try:
+        r = yield from _orig_gen(self, invocation_id, status, runner_id)
+        return r
+    finally:
+        self.locks.pop(invocation_id, None)
+mo.MemOrchestrator._atomic_status_transition__gen = _popping
+'''
+
+
+def _key_from_replay(args, kwargs, replay_out):
+    import re
+    m = re.search(r"'why': '([^']+)'", replay_out or "")
+    return m.group(1) if m else "C02:unclassified"
+
+
 def run(ctx: Ctx) -> None:
     thorough = ctx.tier == "thorough"
     kmax = 26
@@ -337,6 +431,22 @@ def run(ctx: Ctx) -> None:
     for kind, kname in ((0, "mem"), (1, "sqlite")):
         bsrc = base + BODYF.replace("__KIND__", str(kind)).replace("__BK2__", "60" if thorough else "0")
         ctx.ch_batch(f"c02body_{kname}", bsrc, [Cond(f"body_{kind}", "confirm", 1500)])
+    # --- 4. claim - release - claim by one runner while another runner's request is in flight (stale lock references, stale reads)
+    rk = 90
+    # quick: A's request is a claim (-> PENDING) by r1 or r2; thorough: any of the 14 statuses
+    P = 4
+    nalo, nahi = (0, 13) if thorough else (P, P)
+    rsrc = base + RECLAIM
+    rconds = []
+    for kind in (0, 1):
+        for path in range(3):
+            rsrc += RECLAIMF.replace("__KIND__", str(kind)).replace("__PATH__", str(path)).replace("RKMAX", str(rk)).replace("NALO", str(nalo)).replace("NAHI", str(nahi))
+            rconds.append(Cond(f"reclaim_{kind}_{path}", "confirm", 2400, keyfn=_key_from_replay))
+    ctx.ch_batch("c02reclaim", rsrc, rconds)
+    csrc = base + RECLAIM + RECLAIM_CANARY + RECLAIMF.replace("__KIND__", "0").replace("__PATH__", "0").replace("RKMAX", str(rk)).replace("NALO", str(P)).replace("NAHI", str(P))
+    ctx.ch_batch("c02reclaim_canary", csrc, [Cond("reclaim_0_0", "refute", 900)])
+    ctx.bounds["reclaim"] = (f"actor A: {'any one request (14 statuses' if thorough else 'a claim (-> PENDING'}, by r1 or r2); actor B (r2): claim, release through RETRY / REROUTED / KILLED+REROUTED, claim again; "
+                             f"first actor, 2 preemptions with slices 0..{rk}; both backends; oracle = linearisability against the status table")
     ctx.bounds["body"] = "two workers holding the same invocation object (one the legitimate owner, one stale) run the real DistributedInvocation.run twins, 1 preemption (thorough: 2) with slices 0..60, both backends: the body executes at most once"
     ctx.bounds["pollers"] = (f"2 pollers running the real get_invocations_to_run(1) twins; queue holds 1-3 copies of one id, optionally a second id, "
                              f"optionally the id also offered through the blocking list; {'2 preemptions' if thorough else '1 preemption'} with slice 0..{pk}")
